@@ -9,8 +9,9 @@ rel_items = ufun("rel_items", ["NestedReuseTOML", "Path"], "list[tuple[ReuseTOML
 
 
 # ---- within one REUSE.toml the LAST matching [[annotations]] table applies -----------------------------------------
-@spec
-def is_last_match(anns, p, result):
+@spec(opaque=True)
+def is_last_match(anns: "list[AnnotationsItem]", p: str, result: "Optional[AnnotationsItem]") -> bool:
+    """result is the applicable table: the LAST element of anns that matches p (None when none does)"""
     return ((result is None and forall(lambda j: implies(0 <= j and j < len(anns), not item_matches(anns[j], p)), "int"))
             or exists(lambda r: 0 <= r and r < len(anns) and result == anns[r] and item_matches(anns[r], p)
                       and forall(lambda j: implies(r < j and j < len(anns), not item_matches(anns[j], p)), "int"), "int"))
@@ -21,10 +22,19 @@ class FindAnnotationsItem:
     types = {"self": "ReuseTOML", "path": "Path", "return": "Optional[AnnotationsItem]"}
 
     def post(self, path, result):
-        return is_last_match(self.annotations, as_posix(path), result)
+        return reveal(is_last_match(self.annotations, as_posix(path), result)) and is_last_match(self.annotations, as_posix(path), result)
 
-    loops = {0: LoopSpec(inv=lambda self, path, _i, _it: forall(
-        lambda j: implies(0 <= j and j < _i, not item_matches(_it[j], path)), "int"))}
+    # reversed(): after _i iterations the tables annotations[len-_i:] have been tried and none matched
+    loops = {0: LoopSpec(original_order=True, inv=lambda self, path, _i, _it: forall(
+        lambda j: implies(len(_it) - _i <= j and j < len(_it), not item_matches(_it[j], path)), "int"))}
+
+
+@lemma(types={"anns": "list[AnnotationsItem]", "p": "str", "a": "Optional[AnnotationsItem]", "b": "Optional[AnnotationsItem]"},
+       serves=["C04"], name="applicable-table-is-unique")
+def last_match_unique(anns, p, a, b):
+    # the applicable table is determined by the table list and the path (sequence positions; equal tables are equal)
+    return implies(reveal(is_last_match(anns, p, a)) and reveal(is_last_match(anns, p, b))
+                   and is_last_match(anns, p, a) and is_last_match(anns, p, b), a == b)
 
 
 @spec
@@ -40,7 +50,7 @@ class ReuseTomlInfoOf:
 
     def post(self, path, result, it0):
         # the applicable table (last match) is reported under ITS precedence, naming REUSE.toml as the source
-        return implies(is_last_match(self.annotations, as_posix(path), it0),
+        return implies(use(last_match_unique, self.annotations, as_posix(path)) and is_last_match(self.annotations, as_posix(path), it0),
                        (it0 is None and result == {})
                        or (it0 is not None and result == {it0.precedence: [info_of_item(it0, as_posix(path))]}))
 
@@ -64,6 +74,23 @@ def dget(d, k):
     return d[k] if k in d else []
 
 
+path_join = ufun("path_join", ["Path", "Path"], "Path")
+rel_to = ufun("relative_to", ["Path", "Path"], "Path")
+path_of_str = ufun("path_of_str", ["str"], "Path")
+
+
+@spec
+def rel_items_wf(self, path, R):
+    """what the finder guarantees for every (toml, item) it returns: the toml's directory contains the file, the item
+    is the toml's applicable (last matching) table for the file's path relative to that directory, and the toml lies
+    below the project root"""
+    adjusted = path_join(path_of_str(self.source), path)
+    return forall(lambda k: implies(0 <= k and k < len(R),
+                                    adjusted.is_relative_to(R[k][0].directory)
+                                    and is_last_match(R[k][0].annotations, as_posix(rel_to(adjusted, R[k][0].directory)), R[k][1])
+                                    and path_of_str(R[k][0].source).is_relative_to(path_of_str(self.source))), "int")
+
+
 @contract("reuse.global_licensing.NestedReuseTOML._find_relevant_tomls_and_items", serves=["C04"], assumed=True,
           why="ancestor REUSE.toml files sorted outermost-first with their last matching table (sort key and lexical path "
               "relations are assumed; find_annotations_item is under contract)")
@@ -71,23 +98,111 @@ class FindRelevantTomlsAndItems:
     types = {"self": "NestedReuseTOML", "path": "Path", "return": "list[tuple[ReuseTOML, AnnotationsItem]]"}
 
     def post(self, path, result):
-        return result == rel_items(self, path)
+        return result == rel_items(self, path) and rel_items_wf(self, path, result)
+
+
+@spec
+def kept_c(L, v, sp):
+    return exists(lambda r: r in L and v in r.copyright_lines and r.source_path == sp, "ReuseInfo")
+
+
+@spec
+def kept_l(L, x, sp):
+    return exists(lambda r: r in L and x in r.spdx_expressions and r.source_path == sp, "ReuseInfo")
+
+
+@spec
+def nearest_c_has(C, v, sp):
+    """(v, sp) is a copyright line of the LAST entry of C that has copyright (C is outermost-first: last = nearest)"""
+    return exists(lambda j: 0 <= j and j < len(C) and bool(C[j].copyright_lines) and v in C[j].copyright_lines
+                  and C[j].source_path == sp
+                  and forall(lambda m: implies(j < m and m < len(C), not C[m].copyright_lines), "int"), "int")
+
+
+@spec
+def nearest_l_has(C, x, sp):
+    return exists(lambda j: 0 <= j and j < len(C) and bool(C[j].spdx_expressions) and x in C[j].spdx_expressions
+                  and C[j].source_path == sp
+                  and forall(lambda m: implies(j < m and m < len(C), not C[m].spdx_expressions), "int"), "int")
+
+
+@spec(opaque=True)
+def first_c_has(R: "list[ReuseInfo]", n: int, v: str, sp: "Optional[str]") -> bool:
+    """(v, sp) is a copyright line of the FIRST entry among R[0..n) that has copyright (R is innermost-first)"""
+    return exists(lambda j: 0 <= j and j < n and j < len(R) and bool(R[j].copyright_lines) and v in R[j].copyright_lines
+                  and R[j].source_path == sp
+                  and forall(lambda m: implies(0 <= m and m < j, not R[m].copyright_lines), "int"), "int")
+
+
+@spec(opaque=True)
+def first_l_has(R: "list[ReuseInfo]", n: int, x: "Expr", sp: "Optional[str]") -> bool:
+    return exists(lambda j: 0 <= j and j < n and j < len(R) and bool(R[j].spdx_expressions) and x in R[j].spdx_expressions
+                  and R[j].source_path == sp
+                  and forall(lambda m: implies(0 <= m and m < j, not R[m].spdx_expressions), "int"), "int")
+
+
+_TF = {"R": "list[ReuseInfo]", "n": "int", "v": "str", "sp": "Optional[str]"}
+_TFX = {"R": "list[ReuseInfo]", "n": "int", "x": "Expr", "sp": "Optional[str]"}
+
+
+@lemma(types=_TF, serves=["C04"], name="first-copyright-provider-step")
+def first_c_step(R, n, v, sp):
+    return implies(reveal(first_c_has(R, n, v, sp)) and reveal(first_c_has(R, n + 1, v, sp)) and 0 <= n and n < len(R),
+                   first_c_has(R, n + 1, v, sp)
+                   == (first_c_has(R, n, v, sp)
+                       or (bool(R[n].copyright_lines) and v in R[n].copyright_lines and R[n].source_path == sp
+                           and forall(lambda m: implies(0 <= m and m < n, not R[m].copyright_lines), "int"))))
+
+
+@lemma(types={"R": "list[ReuseInfo]", "v": "str", "sp": "Optional[str]"}, serves=["C04"], name="first-copyright-provider-base")
+def first_c_base(R, v, sp):
+    return implies(reveal(first_c_has(R, 0, v, sp)), not first_c_has(R, 0, v, sp))
+
+
+@lemma(types=_TFX, serves=["C04"], name="first-licence-provider-step")
+def first_l_step(R, n, x, sp):
+    return implies(reveal(first_l_has(R, n, x, sp)) and reveal(first_l_has(R, n + 1, x, sp)) and 0 <= n and n < len(R),
+                   first_l_has(R, n + 1, x, sp)
+                   == (first_l_has(R, n, x, sp)
+                       or (bool(R[n].spdx_expressions) and x in R[n].spdx_expressions and R[n].source_path == sp
+                           and forall(lambda m: implies(0 <= m and m < n, not R[m].spdx_expressions), "int"))))
+
+
+@lemma(types={"R": "list[ReuseInfo]", "x": "Expr", "sp": "Optional[str]"}, serves=["C04"], name="first-licence-provider-base")
+def first_l_base(R, x, sp):
+    return implies(reveal(first_l_has(R, 0, x, sp)), not first_l_has(R, 0, x, sp))
 
 
 @contract("reuse.global_licensing.NestedReuseTOML.reuse_info_of", serves=["C04"])
 class NestedInfoOf:
     types = {"self": "NestedReuseTOML", "path": "Path", "return": "dict[PrecedenceType, list[ReuseInfo]]"}
-    ghost = {"v0": "str", "x0": "Expr", "e0": "ReuseInfo"}
-    raises = {ValueError: None}     # lexical relative_to on a path that is not below the REUSE.toml (excluded by the finder)
+    ghost = {"v0": "str", "x0": "Expr", "sp0": "Optional[str]"}
 
-    def post(self, path, result, C0, v0, x0, e0):
+    def post(self, path, result, C0, v0, x0, sp0):
         clo = dget(result, PrecedenceType.CLOSEST)
         return (
             # copyright: exactly the lines of the nearest closest-table that has any, attributed to that table
-            exists(lambda r: r in clo and v0 in r.copyright_lines and r.source_path == e0.source_path, "ReuseInfo")
-            == (nearest_c(C0, e0) and v0 in e0.copyright_lines)
+            # (C0 is the chain's CLOSEST list outermost-first; "nearest" = first provider when read innermost-first)
+            kept_c(clo, v0, sp0) == first_c_has(reversed(C0), len(C0), v0, sp0)
             # licensing: likewise, independently of copyright
-            and exists(lambda r: r in clo and x0 in r.spdx_expressions and r.source_path == e0.source_path, "ReuseInfo")
-            == (nearest_l(C0, e0) and x0 in e0.spdx_expressions)
+            and kept_l(clo, x0, sp0) == first_l_has(reversed(C0), len(C0), x0, sp0)
             # an empty CLOSEST list is not left behind
             and implies(PrecedenceType.CLOSEST in result, len(clo) > 0))
+
+    loops = {
+        # walk over the relevant REUSE.toml files, outermost first, until the first override
+        0: LoopSpec(inv=lambda result: True, types={"toml": "ReuseTOML", "item": "AnnotationsItem", "relpath": "Path", "info": "ReuseInfo"}),
+        # clean-up of CLOSEST, nearest first
+        1: LoopSpec(
+            capture={"C0": lambda result: dget(result, PrecedenceType.CLOSEST)},
+            inv=lambda to_keep, copyright_found, licence_found, _i, _it, C0, v0, x0, sp0: (
+                _it == reversed(C0)
+                and use(first_c_step, _it, _i, v0, sp0) and use(first_c_base, _it, v0, sp0)
+                and use(first_l_step, _it, _i, x0, sp0) and use(first_l_base, _it, x0, sp0)
+                and copyright_found == exists(lambda j: 0 <= j and j < _i and bool(_it[j].copyright_lines), "int")
+                and licence_found == exists(lambda j: 0 <= j and j < _i and bool(_it[j].spdx_expressions), "int")
+                and kept_c(to_keep, v0, sp0) == first_c_has(_it, _i, v0, sp0)
+                and kept_l(to_keep, x0, sp0) == first_l_has(_it, _i, x0, sp0)
+                and (len(to_keep) > 0) == (copyright_found or licence_found)),
+            types={"new_info": "ReuseInfo", "to_keep": "list[ReuseInfo]"}),
+    }
